@@ -128,6 +128,13 @@ func init() {
 			}
 			return TupleV{ex.i64(int64(d)), &IfaceV{}}
 		},
+		"(time.Duration).Seconds": func(ex *Exec, fn *ssa.Function, a []Value, fr *Frame) Value {
+			t := a[0].(*Term)
+			if !t.IsConst() {
+				panic(unsupported("Duration.Seconds of a symbolic duration"))
+			}
+			return &Opaque{Kind: "float", Data: float64(t.SInt()) / 1e9}
+		},
 		"math/rand.Uint32": func(ex *Exec, fn *ssa.Function, a []Value, fr *Frame) Value { return ex.freshVar("rand.Uint32", 32) },
 		"strconv.Atoi":      intrAtoi,
 		"strconv.Itoa":      intrItoa,
